@@ -190,10 +190,39 @@ def judge(case):
         pg = gen.rand_polygon(r, 3, 6, 3)
         n = K.polygon_normal(pg[1])
         off = K.mul(gen._reduce(n), r.choice((F(1, 4), F(1, 2), 1, -1)))
-        pts = list(pg[1]) + [K.add(pg[1][r.randrange(len(pg[1]))], K.add(off, gen.rdir(r, 1)))]
-        if K.dot(n, K.sub(pts[-1], pts[0])) == 0:
-            return core.not_admitted("accidentally-coplanar")
-        r.shuffle(pts)
+        if r.random() < 0.25:
+            # a kite P0, A, B, R symmetric about the diagonal P0-R, with an off-plane point straight above R listed
+            # BEFORE R: both have the same polar angle about the centre seen from P0
+            while True:
+                u_, v_ = gen.rdir(r, 2), gen.rdir(r, 2)
+                if K.cross(u_, v_) != (0, 0, 0) and K.dot(u_, u_) == K.dot(v_, v_):
+                    break
+            o_ = gen.rpt(r, 3, (1, 2))
+            b_ = r.choice((1, 2, F(1, 2)))
+            a_ = b_ * r.choice((1, 2, F(3, 2)))
+            nn = gen._reduce(K.cross(u_, v_))
+            P0, A_, B_ = o_, K.add(o_, K.mul(u_, b_)), K.add(o_, K.mul(v_, b_))
+            R_ = K.add(o_, K.mul(K.add(u_, v_), a_))
+            Q_ = K.add(R_, K.mul(nn, r.choice((F(1, 2), 1, F(1, 4), -1))))
+            pts = [P0, A_, B_, Q_, R_] if r.random() < 0.7 else [P0, A_, B_, R_, Q_]
+            _expect_raise(mu, lambda: G.ConvexPolygon(tuple(_P(G, x) for x in pts)), cls + ":lifted-twin-of-the-far-vertex",
+                          "ConvexPolygon with an off-plane point straight above the vertex opposite the first one")
+            return mu.result()
+        if r.random() < 0.4:
+            # an off-plane point straight above / below one of the vertices (same polar angle about the centre),
+            # placed before or after that vertex in the list
+            j = r.randrange(len(pg[1]))
+            lifted = K.add(pg[1][j], off)
+            pts = list(pg[1])
+            pts.insert(j if r.random() < 0.5 else j + 1, lifted)
+            if r.random() < 0.5:
+                k0 = r.randrange(len(pts))
+                pts = pts[k0:] + pts[:k0]
+        else:
+            pts = list(pg[1]) + [K.add(pg[1][r.randrange(len(pg[1]))], K.add(off, gen.rdir(r, 1)))]
+            if K.dot(n, K.sub(pts[-1], pts[0])) == 0:
+                return core.not_admitted("accidentally-coplanar")
+            r.shuffle(pts)
         _expect_raise(mu, lambda: G.ConvexPolygon(tuple(_P(G, x) for x in pts)), cls, "ConvexPolygon with a vertex off the plane of the others")
         return mu.result()
     if cls == "plane-bad":
